@@ -7,6 +7,8 @@ property oracle   : value of original vs flattened vs optimised tree on the
                     implementation against the model's reference denotation
 """
 import os
+import random
+import zlib
 import sys
 
 sys.path.insert(0, os.path.dirname(os.path.dirname(os.path.abspath(__file__))))
@@ -86,23 +88,49 @@ def run(replay=None):
             v = D.get((p.cid, key))
             return v[0] if v else None
         # --- correspondence ---
+        # fragile structure: one of the model's shadow builds (doubles, one-ulp noise, +0 only) folds its
+        # constants to something else than the main build (a NaN, pi instead of -pi, a cancelled difference)
+        def fragile(nm):
+            ls = M.get((p.cid, p.q[nm][0])) or []
+            main = [l for l in ls if l.startswith("D ")]
+            return bool(main) and any(not exprlib.dags_equal_mod_sharing(main[0][2:], l[3:], ulps=64)
+                                      for l in ls if l.startswith("DS "))
+        frag = fragile("dump") or fragile("dumpf") or fragile("dumpo")
+        if frag:
+            stats["fragile_fold_skipped"] = stats.get("fragile_fold_skipped", 0) + 1
         for nm, stat in (("dump", "built"), ("dumpf", "flat")):
             hi, mi = g(H, p.q[nm][0]), g(M, p.q[nm][0])
+            if frag:
+                continue
             if hi is None or mi is None:
                 corr_bad.append((p, nm, hi, mi)); continue
             if hi == mi:
                 stats["built_exact" if stat == "built" else "flat_exact"] += 1
             elif exprlib.dumps_equal_tol(hi[2:], mi[2:]):
                 stats["built_tol"] += 1
+            elif any(t[0] == "c" and len(t) == 9 and (int(t[1:], 16) & 0x7f800000) == 0x7f800000 for t in (hi + " " + mi).split()):
+                # a constant folded through an infinity or a NaN (Eigen's pow(-inf, 3) is +inf, libm's -inf):
+                # outside the property's domain, nothing canonical to compare
+                stats["nonfinite_const_skipped"] = stats.get("nonfinite_const_skipped", 0) + 1
             else:
                 corr_bad.append((p, nm, hi, mi))
         ho, mo = g(H, p.q["dumpo"][0]), g(M, p.q["dumpo"][0])
-        if ho and mo and ho.startswith("D ") and mo.startswith("D "):
+        if frag:
+            pass
+        elif ho and mo and ho.startswith("D ") and mo.startswith("D "):
             if exprlib.ac_normal(ho[2:]) == exprlib.ac_normal(mo[2:]):
                 stats["opt_ac_equal"] += 1
-            elif exprlib.dags_equal_mod_sharing(ho[2:], mo[2:], ulps=64):
+            elif any(t[0] == "c" and len(t) == 9 and (int(t[1:], 16) & 0x7f800000) == 0x7f800000 for t in (ho + " " + mo).split()):
+                # a NaN constant inside a commutative chain: min / max with NaN depend on the operand order, which
+                # the optimiser takes from pointer order (folding min(2, NaN) or not) - no canonical form to compare
+                stats["opt_nan_skipped"] = stats.get("opt_nan_skipped", 0) + 1
+            elif exprlib.dags_equal_mod_sharing(ho[2:], mo[2:], ulps=64) or exprlib.ac_equal_tol(ho[2:], mo[2:], ulps=64):
                 # same structure, folded transcendental constants a few ulps apart (libm vs Eigen)
                 stats["opt_ac_equal"] += 1
+            elif exprlib.dumps_numerically_equal(ho[2:], mo[2:], random.Random(zlib.crc32(p.cid.encode()))):
+                # structure differs (e.g. a 1e-7 residue left in an affine constant term by fused
+                # multiply-add accumulation) but the two optimiser outputs are the same function
+                stats["opt_numeric_equal"] = stats.get("opt_numeric_equal", 0) + 1
             else:
                 corr_bad.append((p, "dumpo", ho, mo))
         else:
@@ -149,7 +177,10 @@ def run(replay=None):
                 mx = g(M, e["x"])
                 if mx and mx.startswith("V "):
                     ok1, sk1 = value_ok(vals["r"], mx)
-                    if not sk1 and not ok1:
+                    # (both expressions must be in their domain at the point: max(NaN, 0) folds to NaN or to 0
+                    #  depending on the pointer order, and Tree::eq then compares a NaN-valued tree with 0)
+                    _, sk0 = value_ok(vals["r"], mr)
+                    if not sk1 and not sk0 and not ok1:
                         ck.violation("eq_sound", "Tree::eq says equal but the functions differ",
                                      {"program": p.text(), "point": pt, "vars": vv})
         # non-triviality: >= 5 nodes, >= 2 opcodes, optimised differs from built or a remap was flattened
